@@ -582,6 +582,9 @@ func runC02(c *engine.Ctx) {
 		}}, "file content only after a successful read, otherwise the built-in page")
 		c.Floor(1, 1)
 	}
+
+	// ---- R11 the CONNECT handler can hijack what it is given (shared with C16.R21) ----
+	c16ImpossibleAssert(c, "R11", "pkg/util/vhost", "pkg/plugin/client", "pkg/util/http")
 }
 
 func keysOf(m map[string]bool) []string {
